@@ -279,6 +279,64 @@ impl<T: CellT + std::hash::Hash> Machine<T> {
                     }
                 }
             }
+            "d_nth" | "d_nth_back" => {
+                let n = conc[0];
+                let front = op == "d_nth";
+                let item = match &mut self.handle {
+                    Handle::Row(d) => if front { d.nth(n) } else { d.nth_back(n) },
+                    Handle::Col(d) => if front { d.nth(n) } else { d.nth_back(n) },
+                    Handle::Into(d) => if front { d.nth(n) } else { d.nth_back(n) },
+                    Handle::None => panic!("harness: no handle"),
+                };
+                match item {
+                    None => res_none(),
+                    Some(e) => {
+                        let live = !T::TRACKED || (e.magic_ok() && ledger::is_live(e.serial()) == Some(true));
+                        let o = e.origin();
+                        self.held.push(e);
+                        if live { json!({"k": "some", "v": o}) } else { json!({"k": "some", "v": o, "dead_on_arrival": true}) }
+                    }
+                }
+            }
+            "d_count" => {
+                let n = match std::mem::replace(&mut self.handle, Handle::None) {
+                    Handle::Row(d) => d.count(),
+                    Handle::Col(d) => d.count(),
+                    Handle::Into(d) => d.count(),
+                    Handle::None => panic!("harness: no handle"),
+                };
+                json!({"k": "val", "v": n})
+            }
+            "d_last" => {
+                let item = match std::mem::replace(&mut self.handle, Handle::None) {
+                    Handle::Row(d) => d.last(),
+                    Handle::Col(d) => d.last(),
+                    Handle::Into(d) => d.last(),
+                    Handle::None => panic!("harness: no handle"),
+                };
+                match item {
+                    None => res_none(),
+                    Some(e) => {
+                        let live = !T::TRACKED || (e.magic_ok() && ledger::is_live(e.serial()) == Some(true));
+                        let o = e.origin();
+                        self.held.push(e);
+                        if live { json!({"k": "some", "v": o}) } else { json!({"k": "some", "v": o, "dead_on_arrival": true}) }
+                    }
+                }
+            }
+            "d_collect" | "d_rcollect" => {
+                let fwd = op == "d_collect";
+                let items: Vec<T> = match std::mem::replace(&mut self.handle, Handle::None) {
+                    Handle::Row(d) => if fwd { d.collect() } else { d.rev().collect() },
+                    Handle::Col(d) => if fwd { d.collect() } else { d.rev().collect() },
+                    Handle::Into(d) => if fwd { d.collect() } else { d.rev().collect() },
+                    Handle::None => panic!("harness: no handle"),
+                };
+                let dead = T::TRACKED && items.iter().any(|e| !(e.magic_ok() && ledger::is_live(e.serial()) == Some(true)));
+                let v = origins_of(&items);
+                self.held.extend(items);
+                if dead { json!({"k": "ids", "v": v, "dead_on_arrival": true}) } else { json!({"k": "ids", "v": v}) }
+            }
             "d_drop" => {
                 self.handle = Handle::None;
                 res_unit()
@@ -466,7 +524,11 @@ impl<T: CellT + std::hash::Hash> Machine<T> {
             "from_view" if self.in_fault => {
                 let (sc, sr) = get_pair(a, "s");
                 let (ec, er) = get_pair(a, "e");
-                let t = TooDee::<T>::from(arr.view((sc as usize, sr as usize), (ec as usize, er as usize)));
+                let t = if a.get("m").and_then(|v| v.as_u64()) == Some(1) {
+                    TooDee::<T>::from(arr.view_mut((sc as usize, sr as usize), (ec as usize, er as usize)))
+                } else {
+                    TooDee::<T>::from(arr.view((sc as usize, sr as usize), (ec as usize, er as usize)))
+                };
                 let ids = origins_of(t.data());
                 drop(t);
                 json!({"k": "ids", "v": ids})
@@ -511,9 +573,13 @@ impl<T: CellT + std::hash::Hash> Machine<T> {
             "from_view" => {
                 let (sc, sr) = get_pair(a, "s");
                 let (ec, er) = get_pair(a, "e");
-                let v = arr.view((sc as usize, sr as usize), (ec as usize, er as usize));
-                let dims = v.size();
-                let t = TooDee::<T>::from(v);
+                let (dims, t) = if a.get("m").and_then(|v| v.as_u64()) == Some(1) {
+                    let v = arr.view_mut((sc as usize, sr as usize), (ec as usize, er as usize));
+                    (v.size(), TooDee::<T>::from(v))
+                } else {
+                    let v = arr.view((sc as usize, sr as usize), (ec as usize, er as usize));
+                    (v.size(), TooDee::<T>::from(v))
+                };
                 let ids = origins_of(t.data());
                 let ok = t.size() == dims && t.data().len() == dims.0 * dims.1;
                 let mut r = json!({"k": "ids", "v": ids});
@@ -569,6 +635,7 @@ pub fn index_args(op: &str, a: &Value) -> Vec<u64> {
     match op {
         "new" | "init" | "from_vec" | "from_box" => vec![get_u64(a, "nc"), get_u64(a, "nr")],
         "insert_row" | "insert_col" | "remove_row" | "remove_col" => vec![get_u64(a, "index")],
+        "d_nth" | "d_nth_back" => vec![get_u64(a, "n")],
         "set" => vec![get_u64(a, "c"), get_u64(a, "r")],
         "swap" => vec![get_u64(a, "c1"), get_u64(a, "r1"), get_u64(a, "c2"), get_u64(a, "r2")],
         "swap_rows" => vec![get_u64(a, "r1"), get_u64(a, "r2")],
